@@ -2,6 +2,7 @@ import DM.Lemmas.DecTotal
 import DM.Lemmas.DecStr
 import DM.Props.C08
 import DM.Lemmas.RSTotal
+import DM.Lemmas.LDTotal
 /-!
 # C05 — decoding untrusted input never panics or hangs
 
@@ -22,9 +23,12 @@ Proved here (for the models, whose every Rust panic site is an explicit outcome)
   (they exist only in builds with debug assertions), and the decoder always terminates (the model's
   loops are bounded by construction; `rs_decode_length`: a success returns a vector of the same length).
 
-Not proved (decided by model/implementation correspondence and sweeps, see DESIGN.md): that the
-identities (3) and (4) of the Levinson–Durbin recursion hold, i.e. that the two remaining debug
-assertions never fire.
+* `rs_decode_total`: the two remaining assertions never fire either — equations (3) and (4) are
+  invariants of the Levinson–Durbin recursion, in the regular and in the singular case
+  (`DM/Lemmas/LD*.lean`: the algebra of Schmidt–Fettweis' recursion over GF(256), including the
+  triangular Toeplitz system for gamma and the shifted sums of eq. (9)) — so the Reed–Solomon
+  decoder model returns a value or one of its three documented errors for **every** word of the
+  right length, in the checked and in the release profile alike.
 -/
 namespace DM.Props.C05
 open DM.Model DM.Model.Dec DM.Lemmas
@@ -104,6 +108,29 @@ theorem rs_decode_panics_only_algebraic (s : Sym) (cw : List Nat)
     (h : RS.decode s cw = .error (.panic site)) :
     site = "debug_assert eq (3)" ∨ site = "debug_assert eq (4)" :=
   DM.Lemmas.RSTotal.decode_panic_algebraic_of_length s cw hlen site h
+
+/-- **Totality of the Reed–Solomon decoder**: for every size and every word of the size's length
+the model returns the corrected vector or one of `TooManyErrors`, `ErrorsOutsideRange`,
+`Malfunction` — no panic outcome at all (the Levinson–Durbin identities (3), (4) hold, so the two
+debug assertions cannot fire either), and it terminates by construction. -/
+theorem rs_decode_total (s : Sym) (cw : List Nat)
+    (hlen : cw.length = (row s).dataCw + (row s).blocks * (row s).eccPer) :
+    (∃ out, RS.decode s cw = .ok out) ∨
+    RS.decode s cw = .error .tooManyErrors ∨ RS.decode s cw = .error .errorsOutsideRange ∨
+    RS.decode s cw = .error .malfunction := by
+  cases h : RS.decode s cw with
+  | ok out => exact Or.inl ⟨out, rfl⟩
+  | error e =>
+    cases e with
+    | tooManyErrors => exact Or.inr (Or.inl rfl)
+    | errorsOutsideRange => exact Or.inr (Or.inr (Or.inl rfl))
+    | malfunction => exact Or.inr (Or.inr (Or.inr rfl))
+    | panic site => exact absurd h (DM.Lemmas.LD.decode_noPanic_of_length s cw hlen site)
+
+/-- the locator search never panics, for every syndrome vector of bytes -/
+theorem levinson_durbin_total (syn : List Nat) (hb : ∀ x ∈ syn, x < 256) (site : String) :
+    RS.levinsonDurbin syn ≠ .error (.panic site) :=
+  DM.Lemmas.LD.levinsonDurbin_noPanic syn hb site
 
 /-- a successful Reed–Solomon decode returns a vector of the same length -/
 theorem rs_decode_length (s : Sym) (cw : List Nat)
